@@ -794,13 +794,14 @@ func (tk *tokenizer) consumeValueList(endChar byte) []Token {
 		default:
 			if bytes.HasPrefix(tk.src[tk.pos:], []byte("/*")) { // Comment
 				index := bytes.Index(tk.src[tk.pos+2:], []byte("*/"))
-				tk.pos += 2 + index
 				if index == -1 {
 					if !tk.skipComments {
 						out = append(out, Comment{stringVal{pos: tokenPos, Value: string(tk.src[tk.previousPos+2:])}})
 					}
+					tk.pos = L // the comment runs to EOF for every enclosing block too
 					return out
 				}
+				tk.pos += 2 + index
 				if !tk.skipComments {
 					out = append(out, Comment{stringVal{pos: tokenPos, Value: string(tk.src[tk.previousPos+2 : tk.pos])}})
 				}
